@@ -372,3 +372,115 @@ example : Round 10 2 [1] [] 0
   ⟨by simp, by simp, by simp, by simp⟩
 
 end AM.Cluster
+
+/-! ### the healthy cluster refines the shared log
+
+`healthy_no_duplicate` is stated over ONE log consulted by the staggered flushes of
+a round.  Here the per-instance logs of `AM.Cluster` are related to that shared
+log: the pipeline tail only ever reads and writes the slot of its own key, and a
+gossip delivery that arrives before the next-positioned instance decides brings
+that instance's slot to what the shared log holds. -/
+namespace AM.Cluster
+open AM AM.AList AM.Nflog AM.Dedup
+
+/-- The decision of one flush as a function of the slot of the key alone. -/
+theorem path_congr (c : Cfg) (s s' : State) (f : Flush) (h : query s c.key = query s' c.key) :
+    path c s f = path c s' f := by
+  unfold path reasonOf; rw [h]
+
+theorem sent_congr (c : Cfg) (s s' : State) (f : Flush) (h : query s c.key = query s' c.key) :
+    (flushStep c s f).sent = (flushStep c s' f).sent := by
+  unfold flushStep; rw [path_congr c s s' f h]
+  cases path c s' f <;> rfl
+
+theorem lookup_log_key (now ret : Int) (s s' : State) (k : String) (f r : List Nat) (d : String) (x : Int)
+    (h : lookup s k = lookup s' k) :
+    lookup (log now ret s k f r d x).1 k = lookup (log now ret s' k f r d x).1 k := by
+  have hm : ∀ e : Entry, e.key = k → lookup (merge now s e) k = lookup (merge now s' e) k := by
+    intro e he
+    rw [lookup_merge_upd, lookup_merge_upd, h]
+  unfold log
+  rw [h]
+  cases hq : lookup s' k with
+  | none => simp only [Bool.false_eq_true, if_false]; exact hm _ rfl
+  | some p =>
+    simp only
+    by_cases hp : p.ts > now
+    · simp [hp, h, hq]
+    · simp only [hp, decide_false, Bool.false_eq_true, if_false]; exact hm _ rfl
+
+/-- … and the slot it leaves behind too. -/
+theorem slot_congr (c : Cfg) (s s' : State) (f : Flush) (h : query s c.key = query s' c.key) :
+    query (flushStep c s f).st c.key = query (flushStep c s' f).st c.key := by
+  unfold flushStep; rw [path_congr c s s' f h]
+  cases path c s' f <;> simp only [Dedup.logged, query] <;> first
+    | exact h
+    | exact lookup_log_key _ _ _ _ _ _ _ _ _ h
+
+/-- A delivered entry that is newer than the receiver's slot and not yet expired becomes the receiver's slot. -/
+theorem deliver_sets_slot (now : Int) (s : State) (e : Entry)
+    (hexp : now ≤ e.exp) (hnew : ∀ p, lookup s e.key = some p → p.ts < e.ts) :
+    lookup (merge now s e) e.key = some e := by
+  rw [lookup_merge_upd]; simp only [if_true]
+  unfold upd
+  have : ¬ e.exp < now := by omega
+  simp only [this, if_false]
+  cases hq : lookup s e.key with
+  | none => rfl
+  | some p => simp [hnew p hq]
+
+/-- One position of a healthy round: the instance's slot equals the shared slot, it flushes, and — if it
+    recorded — its entry reaches another instance (whose slot also equalled the shared slot) before that one
+    decides.  Then that instance's slot again equals the shared slot after the flush. -/
+theorem healthy_step_refines (c : Cfg) (hret : 0 ≤ c.retention) (hrep : 0 ≤ c.repeatI)
+    (shared si sj : State) (f : Flush) (now : Int)
+    (hi : query si c.key = query shared c.key) (hj : query sj c.key = query shared c.key)
+    (hold : ∀ p, query shared c.key = some p → p.ts < f.wall)
+    (hlive : now ≤ logExpiry f.wall c.retention (2 * c.repeatI)) :
+    -- the flushing instance behaves exactly as the shared log does …
+    (flushStep c si f).sent = (flushStep c shared f).sent ∧
+    query (flushStep c si f).st c.key = query (flushStep c shared f).st c.key ∧
+    -- … and after the delivery (or without one, when nothing was recorded) the peer agrees with it again
+    (if (flushStep c si f).logged then
+       query (merge now sj (entryOfFlush c f)) c.key = query (flushStep c shared f).st c.key
+     else query sj c.key = query (flushStep c shared f).st c.key) := by
+  refine ⟨sent_congr c si shared f hi, slot_congr c si shared f hi, ?_⟩
+  have hpath := path_congr c si shared f hi
+  have hlog : (flushStep c si f).logged = (flushStep c shared f).logged := by
+    unfold flushStep; rw [hpath]; cases path c shared f <;> rfl
+  by_cases hl : (flushStep c shared f).logged = true
+  · rw [hlog, hl]; simp only [if_true]
+    -- the shared log now holds the flush's entry
+    have hst := flushStep_st c shared f
+    rw [hl] at hst; simp only [if_true] at hst
+    have hspec := log_spec f.wall c.retention shared c.key f.firing f.resolved "-" (2 * c.repeatI) hret (by omega)
+    simp only at hspec
+    obtain ⟨_, hmid, _⟩ := hspec
+    have hshared : query (flushStep c shared f).st c.key = some (entryOfFlush c f) := by
+      rw [hst]; unfold query
+      cases hq : lookup shared c.key with
+      | none => rw [hq] at hmid; exact hmid.1
+      | some p =>
+        rw [hq] at hmid; simp only at hmid
+        have hp := hold p (by unfold query; exact hq)
+        have hn1 : ¬ p.ts > f.wall := by omega
+        have hn2 : ¬ p.ts = f.wall := by omega
+        simp only [hn1, hn2, if_false] at hmid
+        exact hmid.1
+    rw [hshared]
+    have hk : (entryOfFlush c f).key = c.key := rfl
+    unfold query
+    rw [← hk]
+    apply deliver_sets_slot
+    · simpa [entryOfFlush] using hlive
+    · intro p hp
+      have : query sj c.key = some p := by unfold query; rw [← hk]; exact hp
+      rw [hj] at this
+      simpa [entryOfFlush] using hold p this
+  · have hl' : (flushStep c shared f).logged = false := by simpa using hl
+    rw [hlog, hl']; simp only [Bool.false_eq_true, if_false]
+    have hst := flushStep_st c shared f
+    rw [hl'] at hst; simp only [Bool.false_eq_true, if_false] at hst
+    rw [hst]; exact hj
+
+end AM.Cluster
